@@ -806,16 +806,18 @@ func GetLatestReferenceUpdaterEntry(storer gitstore.Storer, opts ...GetLatestRef
 			break
 		}
 
+		if len(options.UntilEntryID) != 0 && iteratorT.GetID().Equal(options.UntilEntryID) {
+			// The until entry has been examined (the condition is
+			// inclusive) and did not match, stop walking the RSL
+			return nil, nil, ErrRSLEntryNotFound
+		}
+
 		iteratorT, err = GetParentForEntry(storer, iteratorT)
 		if err != nil {
 			return nil, nil, err
 		}
 
 		if options.UntilEntryNumber != 0 && iteratorT.GetNumber() < options.UntilEntryNumber {
-			return nil, nil, ErrRSLEntryNotFound
-		}
-
-		if len(options.UntilEntryID) != 0 && iteratorT.GetID().Equal(options.UntilEntryID) {
 			return nil, nil, ErrRSLEntryNotFound
 		}
 	}
